@@ -85,7 +85,56 @@ class Trap:
     __setattr__ = _used('__setattr__', None)
     __delattr__ = _used('__delattr__', None)
     __setstate__ = _used('__setstate__', None)
+    __repr__ = _used('__repr__', '<trap>')      # rendering the object (error messages, logs) runs its code as well
+    __str__ = _used('__str__', '<trap>')
+    __format__ = _used('__format__', '<trap>')
+    __bytes__ = _used('__bytes__', b'<trap>')
     del _used
 
 
 TRAP = Trap()
+
+
+def _rec(owner, name, fn):
+    def f(self, *a, **k):
+        LOG.append(('call', '%s.%s' % (owner, name)))
+        return fn(self, *a, **k)
+    f.__name__ = name
+    return f
+
+
+import collections.abc as _abc
+
+
+class MapObj(_abc.Mapping):
+    """an existing MAPPING instance a document can name (os.environ, a registry, a settings object): iterating it,
+    indexing it, measuring or rendering it is calling the selected object"""
+    def __init__(self, d):
+        object.__setattr__(self, '_d', dict(d))
+    __iter__ = _rec('MAPOBJ', '__iter__', lambda self: iter(self._d))
+    __getitem__ = _rec('MAPOBJ', '__getitem__', lambda self, k: self._d[k])
+    __len__ = _rec('MAPOBJ', '__len__', lambda self: len(self._d))
+    __contains__ = _rec('MAPOBJ', '__contains__', lambda self, k: k in self._d)
+    __repr__ = _rec('MAPOBJ', '__repr__', lambda self: '<mapobj>')
+    __str__ = _rec('MAPOBJ', '__str__', lambda self: '<mapobj>')
+    __bool__ = lambda self: True
+    __hash__ = lambda self: 7                 # usable as a key; hashing / comparing for a dict slot is not recorded
+    __eq__ = lambda self, other: self is other
+
+
+MAPOBJ = MapObj({'leak': 'secret'})
+
+
+class Unhashable:
+    """an existing UNHASHABLE object a document can name (a module-level list, dict, set or an instance whose class sets
+    __hash__ = None): rejecting it as a mapping key needs no code of the object; rendering it does"""
+    __hash__ = None
+    __repr__ = _rec('UNHASH', '__repr__', lambda self: '<unhashable>')
+    __str__ = _rec('UNHASH', '__str__', lambda self: '<unhashable>')
+    __format__ = _rec('UNHASH', '__format__', lambda self, spec: '<unhashable>')
+    __iter__ = _rec('UNHASH', '__iter__', lambda self: iter(()))
+    __len__ = _rec('UNHASH', '__len__', lambda self: 0)
+    __eq__ = lambda self, other: self is other
+
+
+UNHASH = Unhashable()
